@@ -87,8 +87,12 @@ func shutdownWithReason(session *session, msg *Message, incrNextTargetMsgSeqNum 
 	}
 
 	if incrNextTargetMsgSeqNum {
-		if err := session.store.IncrNextTargetMsgSeqNum(); err != nil {
-			session.logError(err)
+		// The refused Logon consumed its sequence number only if it carried the expected one (the
+		// application refuses a Logon before its number has been looked at).
+		if seqNum, err := msg.Header.GetInt(tagMsgSeqNum); err == nil && seqNum == session.store.NextTargetMsgSeqNum() {
+			if err := session.store.IncrNextTargetMsgSeqNum(); err != nil {
+				session.logError(err)
+			}
 		}
 	}
 
